@@ -6,6 +6,7 @@ package c03
 
 import (
 	"fmt"
+	"strings"
 
 	"verif/internal/cmpx"
 	"verif/internal/fw"
@@ -65,12 +66,29 @@ func b2i(b bool) int {
 
 var placeholder = gen.IntLit{V: -7}
 
+// runtimeError is the statement used for the "runtime error" leaf. Every instruction that can fail has its own error
+// path in the VM (and its own way of advancing the instruction pointer), so the family "error-forms" repeats the small
+// cores with each of errorForms in its place.
+var runtimeError gen.Stmt = gen.ExprStmt{X: gen.Bin{Op: "/", L: gen.IntLit{V: 1}, R: gen.Name{N: "zero"}}}
+
+var errorForms = []struct {
+	name string
+	stmt gen.Stmt
+}{
+	{"unary operator on a string", gen.ExprStmt{X: gen.Un{Op: "-", X: gen.Name{N: "str"}}}},
+	{"index out of bounds", gen.ExprStmt{X: gen.Index{X: gen.Name{N: "arr1"}, I: gen.Name{N: "five"}}}},
+	{"call of a non-callable", gen.ExprStmt{X: gen.Call{Fn: gen.Name{N: "zero"}}}},
+	{"wrong number of arguments", gen.ExprStmt{X: gen.Call{Fn: gen.Name{N: "two"}, Args: []gen.Expr{gen.IntLit{V: 1}}}}},
+	{"runtime error in an assignment", gen.Assign{T: []gen.Expr{gen.Name{N: "five"}}, Op: "=", X: gen.Bin{Op: "%", L: gen.Name{N: "five"}, R: gen.Name{N: "zero"}}}},
+	{"runtime error in a condition", gen.If{Cond: gen.Bin{Op: "==", L: gen.Un{Op: "-", X: gen.Name{N: "str"}}, R: gen.IntLit{V: 1}}, Then: []gen.Stmt{gen.LS(650)}}},
+}
+
 func leaves(inLoop bool) []gen.Stmt {
 	l := []gen.Stmt{
 		gen.ExprStmt{X: gen.Call{Fn: gen.Name{N: "L"}, Args: []gen.Expr{placeholder}}},
 		gen.Return{X: placeholder},
 		gen.Throw{X: gen.StrLit{V: "?"}},
-		gen.ExprStmt{X: gen.Bin{Op: "/", L: gen.IntLit{V: 1}, R: gen.Name{N: "zero"}}},
+		runtimeError,
 		gen.ExprStmt{X: gen.Call{Fn: gen.Name{N: "thrower"}}},
 		gen.ExprStmt{X: gen.Call{Fn: gen.Name{N: "inner"}}},
 	}
@@ -314,6 +332,10 @@ func prefixes(thorough bool) [][]gen.Stmt {
 var prelude = []gen.Stmt{
 	gen.Global{Names: []string{"L"}},
 	gen.Define{Names: []string{"zero"}, X: gen.IntLit{V: 0}},
+	gen.Define{Names: []string{"str"}, X: gen.StrLit{V: "s"}},
+	gen.Define{Names: []string{"five"}, X: gen.IntLit{V: 5}},
+	gen.Define{Names: []string{"arr1"}, X: gen.Arr{E: []gen.Expr{gen.IntLit{V: 1}}}},
+	gen.Define{Names: []string{"two"}, X: gen.Func{Params: []string{"a", "b"}, Body: []gen.Stmt{gen.Return{X: gen.Name{N: "a"}}}}},
 	gen.Define{Names: []string{"thrower"}, X: gen.Func{Body: []gen.Stmt{gen.Throw{X: gen.StrLit{V: "thrown"}}}}},
 	gen.Define{Names: []string{"inner"}, X: gen.Func{Body: []gen.Stmt{
 		gen.Try{Body: []gen.Stmt{gen.Throw{X: gen.StrLit{V: "inner"}}}, HasFinally: true, Finally: []gen.Stmt{gen.LS(600)}}}}},
@@ -352,6 +374,33 @@ func run3(c *fw.Ctx) {
 			}
 		}
 	}
+	// every failing instruction kind in the place of the runtime-error leaf, cores of <= 2 (thorough 3) nodes
+	efCore := 2
+	if c.Thorough() {
+		efCore = 3
+	}
+	saved := runtimeError
+	for _, ef := range errorForms {
+		runtimeError = ef.stmt
+		g2 := newG()
+		c.Family("error-forms:"+ef.name, fmt.Sprintf("core<=%d nodes containing the failing statement x %d contexts x %d prefixes", efCore, len(contexts), len(pfx)))
+		for _, ctx := range contexts {
+			for n := 1; n <= efCore; n++ {
+				for _, core := range g2.stmts(n, ctx.inLoop) {
+					if !strings.Contains(gen.Source([]gen.Stmt{core}), gen.Source([]gen.Stmt{ef.stmt})) {
+						continue
+					}
+					for _, p := range pfx {
+						if !c.Next() {
+							continue
+						}
+						one(c, program(ctx, p, core))
+					}
+				}
+			}
+		}
+	}
+	runtimeError = saved
 	if c.Thorough() {
 		// flat space without context, one node deeper
 		c.Family("flat", "core<=5 nodes, no context, no prefix")
